@@ -162,3 +162,80 @@ def run(ctx, rep):
     rep.check(all(cm.get(k, 0) >= need_ for k in CORE), 'R-C01-3c', 'file_post collision test compares the full stamp', fp.file, 'comparisons per member: %s' % cm, function='file_post', construct='collision stamp')
     from .C05 import stripe_selection_rule
     stripe_selection_rule(P, rep, 'R-C01-8')
+    from .C17 import valid_size_rules
+    valid_size_rules(P, rep, 'R-C01-9')
+    used_parity_rule(P, rep, 'R-C01-10')
+
+
+def used_parity_rule(P, rep, rid):
+    """fix rewrites a lost parity block only for stripes flagged as using parity.  The flag must be raised for every stripe that
+    holds a block of a file -- in particular for a stripe whose only blocks are unreadable (the lost disk): they are rebuilt from the
+    surviving parity, and the lost parity of that stripe must be recomputed as well.  Rule: every site that registers a block of a
+    file as failed (is_bad = 1) is reached, from the top of the per-disk loop, only through the store that raises the flag."""
+    from .C04 import is_bad_sites
+    from ..guards import guards_of
+    f = P.fn('state_check_process')
+    rep.analysed(f)
+    rep.rule(rid, 'state_check_process: the flag that enables the parity rewrite of a stripe is raised before any block of a file is registered as failed in that stripe', 2)
+    pw = [c for c in f.calls('parity_write')]
+    if not pw:
+        raise AnalysisBroken('state_check_process: parity_write not found')
+    # flags: int locals only assigned constants whose test guards the parity write; the "used" one is the flag set to non-zero in the loop
+    cand = {}
+    for a_ in f.all_insts():
+        if a_.op != 'alloca' or a_.id in f.arg_allocas():
+            continue
+        us = f.users.get(a_.id, ())
+        if us and all(u.op == 'load' or (u.op == 'store' and f.strip(u.ops[1]) == ['i', a_.id] and f.const_of(u.ops[0]) is not None) for u in us):
+            cand[a_.id] = a_
+    guard_flags = set()
+    for b in range(len(f.blocks)):
+        t = f.term(b)
+        if t.op == 'br' and len(t.ops) == 3 and any(f.bdominates(s_, pw[0].block) for s_ in t.succ if s_ != pw[0].block or True):
+            if not f.bdominates(b, pw[0].block):
+                continue
+            for x in _loads_in(f, t.ops[0]):
+                if x in cand:
+                    guard_flags.add(x)
+    raising = {a: [u for u in f.users.get(a, ()) if u.op == 'store' and f.const_of(u.ops[0]) not in (0, None)] for a in guard_flags}
+    # the flag raised inside the per-disk loop (the other guard flag, valid parity, is only ever lowered there)
+    sites = is_bad_sites(P, f, 1)
+    if not sites:
+        raise AnalysisBroken('state_check_process: no is_bad = 1 site')
+    depth = lambda b_: sum(1 for h_, body in f.loops.items() if b_ in body or b_ == h_)
+    used = [a for a in guard_flags if raising[a] and all(depth(u.block) >= 2 for u in raising[a])]
+    if len(used) != 1:
+        rep.check(False, rid, 'state_check_process: a flag raised in the per-disk loop guards the parity rewrite', pw[0].loc(), 'flags guarding parity_write: %s; raised inside the per-disk loop: %d' % ([cand[a].var for a in guard_flags], len(used)), function='state_check_process', construct='used-parity flag')
+        return
+    ua = used[0]
+    for s in sites:
+        h = f.loop_of(s.block)
+        if h is None:
+            raise AnalysisBroken('is_bad site outside a loop')
+        ok = f.must_pass(s, raising[ua], start=f.blocks[h][0])
+        rep.check(ok, rid, 'state_check_process: %s = 1 before the block is registered as failed' % cand[ua].var, s.loc(),
+                  'every path from the top of the per-disk loop passes the raising store (line %s)' % [u.line for u in raising[ua]] if ok else 'a block of a file is registered as failed (line %s) on a path that never raised %s: if every block of the stripe is unreadable the lost parity of the stripe is not rewritten and fix truncates / leaves it stale' % (s.line, cand[ua].var),
+                  function='state_check_process', construct='used flag before is_bad')
+
+
+def _loads_in(f, o, depth=0, seen=None):
+    """allocas whose loads feed a condition (through compares, and/or, short-circuit phis)"""
+    seen = set() if seen is None else seen
+    o = f.strip(o)
+    if o[0] != 'i' or depth > 10 or o[1] in seen:
+        return set()
+    seen.add(o[1])
+    i = f.insts[o[1]]
+    if i.op == 'load':
+        a = f.strip(i.ops[0])
+        return {a[1]} if a[0] == 'i' and f.insts[a[1]].op == 'alloca' else set()
+    res = set()
+    if i.op == 'phi':
+        for pb in i.inc:
+            t = f.term(pb)
+            if t.op == 'br' and len(t.ops) == 3:
+                res |= _loads_in(f, t.ops[0], depth + 1, seen)
+    if i.op in ('icmp', 'and', 'or', 'xor', 'phi', 'select', 'zext', 'trunc'):
+        for x in i.ops:
+            res |= _loads_in(f, x, depth + 1, seen)
+    return res
